@@ -329,7 +329,91 @@ async def script_hidden_expunge(hist: History,
         env.cleanup()
 
 
-SCRIPTS = {'change-before-arm': script_change_before_arm,
+async def run_deleted(spec: dict[str, Any], hist: History,
+                      counters: dict[str, int]) -> None:
+    """The mailbox the idlers have selected is deleted (or renamed away) by
+    another session: that is a change too.  Without further stimulus every
+    idler must be told, once - the server says BYE and closes - and not over
+    and over."""
+    rng = random.Random(spec['seed'])
+    env = await make_env(spec.get('backend', 'dict'))
+    loop = asyncio.get_event_loop()
+    try:
+        if not await provision(env, hist, 1, rng):
+            return
+        writer = Session(env, hist, 9, Sched(), 9)
+        await writer.start()
+        await writer.cmd(b'CREATE Box')
+        for _ in range(rng.randint(0, 2)):
+            await writer.append(b'Box')
+        idlers = [Session(env, hist, i + 1, Sched(spec['seed'] + i,
+                                                   max_drain=rng.choice(
+                                                       [0, 0, 3])), i + 1)
+                  for i in range(spec.get('nidlers', 1))]
+        tags = []
+        for s in idlers:
+            await s.start()
+            await s.select(b'Box', examine=rng.random() < 0.3)
+            await s.fetch_all()
+            tags.append(await s.idle_begin())
+        if rng.random() < 0.5:
+            await loop.quiescent()      # type: ignore[attr-defined]
+        if spec.get('rename'):
+            r = await writer.cmd(b'RENAME Box Box2')
+        else:
+            r = await writer.cmd(b'DELETE Box')
+        if not r.ok:
+            hist.aborted = 'delete-refused'
+            return
+        # bounded wait that does not need quiescence (a server that says
+        # BYE in a loop never becomes quiescent)
+        for _ in range(400):
+            await asyncio.sleep(0)
+        if env.kind != 'dict':
+            # virtual time only passes when nothing is runnable: with a
+            # server that says BYE in a loop this never returns, the step
+            # limit ends the case and run_case() counts the BYEs
+            await loop.advance(3.5)     # type: ignore[attr-defined]
+            for _ in range(400):
+                await asyncio.sleep(0)
+        for s in idlers:
+            byes = sum(1 for r in s.conn.responses
+                       if r.kind == 'untagged' and r.cond == b'BYE')
+            counters['deleted_idlers_judged'] = counters.get(
+                'deleted_idlers_judged', 0) + 1
+            if byes > 1:
+                hist.report('idle-bye-repeated',
+                            'idler %d was sent BYE %d times after its '
+                            'mailbox was %s, connection %s' % (
+                                s.conn.cid, byes,
+                                'renamed away' if spec.get('rename')
+                                else 'deleted',
+                                'closed' if s.conn.dead else 'still open'))
+                return
+            if byes == 0 and not s.conn.dead:
+                hist.report('idle-change-not-delivered:mailbox-deleted',
+                            'idler %d has not been told that its mailbox '
+                            'was %s' % (s.conn.cid, 'renamed away'
+                                        if spec.get('rename') else 'deleted'))
+                return
+    finally:
+        env.cleanup()
+
+
+async def script_deleted(hist: History, counters: dict[str, int]) -> None:
+    await run_deleted({'seed': 3, 'backend': 'dict', 'nidlers': 2}, hist,
+                      counters)
+
+
+async def script_deleted_maildir(hist: History,
+                                 counters: dict[str, int]) -> None:
+    await run_deleted({'seed': 3, 'backend': 'maildir', 'nidlers': 1}, hist,
+                      counters)
+
+
+SCRIPTS = {'mailbox-deleted': script_deleted,
+           'mailbox-deleted-maildir': script_deleted_maildir,
+           'change-before-arm': script_change_before_arm,
            'lazy-diff': script_lazy_diff,
            'hidden-expunge': script_hidden_expunge}
 
@@ -369,6 +453,9 @@ class C16(Check):
                    'rounds': rng.randint(1, 3),
                    'sched': idle_schedule(rng, nid),
                    'early_done': i % 4 == 3}
+            if i % 20 == 11:
+                yield {'kind': 'deleted', 'seed': seed * 1_000_003 + i,
+                       'backend': backend, 'nidlers': nid}
 
     def setup_worker(self) -> None:
         install_glass()
@@ -381,13 +468,30 @@ class C16(Check):
         async def main(loop: L.CtlLoop) -> None:
             if 'script' in spec:
                 await SCRIPTS[spec['script']](hist, extra)
+            elif spec.get('kind') == 'deleted':
+                await run_deleted(spec, hist, extra)
             else:
                 await run_idle(spec, hist, extra)
 
+        deleted = spec.get('kind') == 'deleted' or str(
+            spec.get('script', '')).startswith('mailbox-deleted')
         try:
-            L.run(main, max_steps=600_000)
+            L.run(main, max_steps=80_000 if deleted else 600_000)
         except L.Deadlock:
             hist.aborted = 'deadlock'
+        except L.StepLimit:
+            hist.aborted = 'step-limit'
+            if deleted:
+                for s in hist.sessions:
+                    byes = sum(1 for r in s.conn.responses
+                               if r.kind == 'untagged' and r.cond == b'BYE')
+                    if byes > 1:
+                        hist.aborted = None
+                        hist.report('idle-bye-repeated',
+                                    'idler %d was sent BYE %d times within '
+                                    '80000 loop steps after its mailbox '
+                                    'was gone' % (s.conn.cid, byes))
+                        break
         counters = summarize(hist)
         counters.update(extra)
         aborted = hist.aborted
